@@ -42,7 +42,7 @@ func (S05) Level() string { return "exploration" }
 func (S05) Info() scen.Info {
 	return scen.Info{
 		Rule: "unit = one seeded history of <=40 Store / ComputeLink / Load / LoadRaw / LoadPlusRaw / Fill operations by 1-3 interleaved clients sharing ONE link system (default or private multicodec registry) over ONE backend (memstore, cidlink.Memory, fsstore default/custom on the simulated disk; optional interfaces hidden or not), on a corpus of 3-8 values materialised with different map insertion orders, by the generic node implementation, by a reflection-bound Go struct and by previously loaded nodes, under 2-4 link prototypes (CID v0/v1 x 5 codecs x 6 multihashes x full/truncated digests); reads are chunked at seeded sizes. Fault-free profile. " +
-			"distinct_nontrivial counts distinct hash(backend, registry, sequence of (op, prototype class, value id, outcome)) over histories in which some value was stored and later loaded.",
+			"distinct_nontrivial counts distinct hash(backend, registry, sequence of (op, prototype class, value id, outcome)) over histories in which some value was stored and later loaded. Later additions: trusted-storage and identity-reifier switches, ipld.Encode cross-check, multi-entry dag-json maps with a slash key and near misses of the reserved forms.",
 		DistinctSet: "history",
 		Assumptions: []string{
 			"the digest in every returned link is re-computed by the harness with Go stdlib / x/crypto over the bytes found in storage under that link",
